@@ -83,6 +83,23 @@ IX = {
         ("\twf.SetEXEC(wf.InitExecMask)\n", "\twf.SetEXEC(wf.InitExecMask)\n\tif wf.InitExecMask&1 == 0 {\n\t\twf.SetEXEC(^uint64(0))\n\t}\n")]),
 }
 
+CUF = "amd/timing/cu/computeunit.go"
+COAL = "amd/timing/cu/defaultcoalescer.go"
+LOADRET = "\twf := info.Wavefront\n\tinst := info.Inst\n\n\tfor _, laneInfo := range info.laneInfo {\n"
+# mutations for the timing in-flight layer (inflight.go); names start with "if-"
+IFM = {
+    "if-seed6(load write-back skips lanes masked off when the data returns)": in_file(CUF, [
+        (LOADRET, "\twf := info.Wavefront\n\tinst := info.Inst\n\texecNow := wf.EXEC()\n\n\tfor _, laneInfo := range info.laneInfo {\n\t\tif !laneMasked(execNow, uint(laneInfo.laneID)) {\n\t\t\tcontinue\n\t\t}\n")]),
+    "if-load-write-back-dropped-when-exec-is-zero-at-return": in_file(CUF, [
+        (LOADRET, "\twf := info.Wavefront\n\tinst := info.Inst\n\n\tfor _, laneInfo := range info.laneInfo {\n\t\tif wf.EXEC() == 0 {\n\t\t\tbreak\n\t\t}\n")]),
+    "if-coalescer-load-lane-info-ignores-exec(all 64 lanes receive data)": in_file(COAL, [
+        ("\texec := wf.EXEC()\n\tinst := wf.Inst()\n\treq := transaction.Read\n", "\texec := ^uint64(0)\n\tinst := wf.Inst()\n\treq := transaction.Read\n")]),
+    "if-coalescer-store-ignores-exec(all 64 lanes store)": in_file(COAL, [
+        ("\texec := wf.EXEC()\n\tinst := wf.Inst()\n\treqs := []*mem.WriteReq{}\n", "\texec := ^uint64(0)\n\tinst := wf.Inst()\n\treqs := []*mem.WriteReq{}\n")]),
+    "if-coalescer-store-uses-low-half-of-exec-only": in_file(COAL, [
+        ("\texec := wf.EXEC()\n\tinst := wf.Inst()\n\treqs := []*mem.WriteReq{}\n", "\texec := wf.EXEC() & 0xffffffff\n\tinst := wf.Inst()\n\treqs := []*mem.WriteReq{}\n")]),
+}
+
 MUT = {
     "vop2-drop-exec-guard(gcn3 v_min_u32)": drop_guard("amd/emu/aluvop2.go", "ALUImpl", "runVMINU32"),
     "vop1-drop-exec-guard(gcn3 v_not_b32)": drop_guard("amd/emu/aluvop1.go", "ALUImpl", "runVNOTB32"),
@@ -128,9 +145,13 @@ MUT = {
 def main():
     wt = sys.argv[1]
     MUT.update(IX)
+    MUT.update(IFM)
     names = sys.argv[2:] or list(MUT)
     if names == ["ix"]:
         names = list(IX)
+    if names == ["if"]:
+        names = list(IFM)
+    if_only = all(n.startswith("if-") for n in names)
     ix_only = all(n.startswith("ix-") for n in names)
     verif = "/verif"
     tag = hashlib.md5(wt.encode()).hexdigest()[:8]
@@ -168,7 +189,7 @@ def main():
         finally:
             shutil.move(backup, full)
     json.dump([{"mutation": a, "result": b, "keys": c} for a, b, c in results],
-              open(os.path.join(verif, "selftest/c06/mutation_results_initexec.json" if ix_only else "selftest/c06/mutation_results.json"), "w"), indent=1)
+              open(os.path.join(verif, "selftest/c06/mutation_results_inflight.json" if if_only else "selftest/c06/mutation_results_initexec.json" if ix_only else "selftest/c06/mutation_results.json"), "w"), indent=1)
     shutil.rmtree(root, ignore_errors=True)
 
 
